@@ -10,6 +10,7 @@ pub mod c08;
 pub mod c09;
 pub mod c12;
 pub mod c13;
+pub mod c14;
 pub mod c16;
 pub mod c19;
 pub mod c20;
@@ -31,6 +32,7 @@ pub fn all() -> Vec<Check> {
         Check { info: &c09::INFO, run: c09::run },
         Check { info: &c12::INFO, run: c12::run },
         Check { info: &c13::INFO, run: c13::run },
+        Check { info: &c14::INFO, run: c14::run },
         Check { info: &c16::INFO, run: c16::run },
         Check { info: &c19::INFO, run: c19::run },
         Check { info: &c20::INFO, run: c20::run },
